@@ -4,7 +4,7 @@
    accept exactly those, reproduce the bytes, report the lengths, and (C05) compute the model's root in both the
    struct form and the view form. *)
 From Coq Require Import String Ascii NArith List Bool.
-From V Require Import Base.Sha256 Ssz.SszCore Ssz.SszDesc Ssz.SpecSchemas.
+From V Require Import Base.Sha256 Ssz.SszCore Ssz.SszDesc Ssz.SpecSchemas Ssz.SszDefault.
 Import ListNotations.
 Local Open Scope N_scope.
 
@@ -51,13 +51,55 @@ Inductive structres : Type :=
             (root : string)               (* struct-form HashTreeRoot, hex *)
             (json_ok yaml_ok : bool).     (* marshal + unmarshal + serialize gave the input bytes *)
 
+(* how the Go zero value of a type relates to the type's values *)
+Inductive zshape : Type :=
+| ZClean        (* the zero value represents the SSZ default value (arrays, nil = empty list) *)
+| ZNilBits      (* it holds a nil slice for a bitvector / bitlist: zrnt hashes nil as the default, Serialize may refuse *)
+| ZNotAValue.   (* it holds a nil slice where a vector of n > 0 elements is required: not a value of the type *)
+
 Inductive scase : Type :=
-| CSsz (cfg : Config) (name : string) (input : string) (s : structres) (v : viewres).
+| CSsz (cfg : Config) (name : string) (input : string) (s : structres) (v : viewres)
+(* the Go zero value of the type (never decoded): what Serialize wrote (None: it returned an error), the reported
+   lengths, the struct-form root, the root of the view type's default node, whether its own bytes decode back *)
+| CZero (cfg : Config) (name : string) (shape : zshape) (ser : option string) (bytelen fixedlen : N)
+        (root : string) (viewroot : option string) (redecode panicked : bool)
+(* the same comparison made on the Go side only, for default values too large for in-Coq evaluation *)
+| CZeroGo (name : string) (ok : bool).
 
 (* codes: 1 = the model itself is inconsistent on this input (deser/ser/has_type disagree, unknown type)
           2 = Go differs from the specification on this input *)
+Definition judge_zero (with_roots : bool) (cfg : Config) (name : string) (shape : zshape) (ser : option string)
+           (bl fixl : N) (root : string) (viewroot : option string) (redecode panicked : bool) : N :=
+  match spec_ty cfg name with
+  | None => 1
+  | Some t =>
+      let dv := default_value t in
+      let bs := serialize t dv in
+      let self := has_type t dv && match deserialize t bs with Some _ => true | None => false end in
+      let fl := match fixed_size t with Some n => n | None => 0 end in
+      let r := if with_roots then htr t dv else [] in
+      let roots_ok :=
+          if with_roots
+          then bytes_eqb (unhex root) r && match viewroot with Some vr => bytes_eqb (unhex vr) r | None => true end
+          else true in
+      let ok :=
+          match shape with
+          | ZNotAValue => true
+          | ZClean =>
+              negb panicked && redecode && (bl =? len_N bs) && (fixl =? fl) && roots_ok &&
+              match ser with Some h => bytes_eqb (unhex h) bs | None => false end
+          | ZNilBits =>
+              negb panicked && (fixl =? fl) && roots_ok &&
+              match ser with Some h => bytes_eqb (unhex h) bs && (bl =? len_N bs) | None => true end
+          end in
+      (if self then 0 else 1) + (if ok then 0 else 2)
+  end.
+
 Definition judge (with_roots : bool) (c : scase) : N :=
   match c with
+  | CZero cfg name shape ser bl fixl root viewroot redecode panicked =>
+      judge_zero with_roots cfg name shape ser bl fixl root viewroot redecode panicked
+  | CZeroGo _ ok => if ok then 0 else 2
   | CSsz cfg name input s view =>
       match spec_ty cfg name with
       | None => 1
